@@ -13,7 +13,8 @@ RULE = (
     "empty ones; the embedded workbook is read directly from its zip (sheet1.xml + sharedStrings.xml) and every formula "
     "reference of the chart XML (series name, categories, values, X / Y values, bubble sizes) is resolved against it: "
     "range size = announced ptCount, every cached point = the cell it is indexed to (dates as serial numbers), after "
-    "add_chart and after replace_data.  Reference strings are also compared with the Lean layout model.  "
+    "add_chart and after replace_data, and again for every chart of a deck after the whole deck was saved and re-opened.  Reference "
+    "strings are also compared with the Lean layout model, date serial numbers (both date systems, years 1..9999) with Model/Serial.  "
     "Non-trivial = distinct (chart type, data shape)."
 )
 ASSUMPTIONS = [
